@@ -1,6 +1,7 @@
 SPECIFICATION TSpec
 CONSTANTS
   T = 8196
+  Window = 8196
   Dev = {}
   MaxLen = 0
   Small = 1
